@@ -33,6 +33,10 @@ type RefSketch struct {
 	// SumOverflow: at some point the exact sum (or one of its terms) left the float64 range;
 	// the implementation's running sum is then infinite or NaN for good (sticky until Clear).
 	SumOverflow bool
+	// PosOver / NegOver (sticky until Clear): the positive (negative) contributions value*weight ever
+	// added up to 1e300 or more, so a running sum may have reached +Inf (-Inf). Without both, an exact
+	// sum can never be NaN; without one, it can never be that infinity.
+	PosOver, NegOver bool
 	// Scale history is folded into Items (weights are rescaled in place).
 	Tainted bool
 	// Lossy: some absorbed content came from a bounded store that had already
@@ -47,7 +51,7 @@ func NewRefSketch(kind string, n int) *RefSketch {
 
 func (s *RefSketch) Clone() *RefSketch {
 	c := &RefSketch{Pos: s.Pos.Clone(), Neg: s.Neg.Clone(), Zero: s.Zero, Vals: make(map[uint64]float64, len(s.Vals)), Tainted: s.Tainted, Lossy: s.Lossy, NonUnit: s.NonUnit,
-		ValTotal: s.ValTotal, ValGran: s.ValGran, SumOverflow: s.SumOverflow}
+		ValTotal: s.ValTotal, ValGran: s.ValGran, SumOverflow: s.SumOverflow, PosOver: s.PosOver, NegOver: s.NegOver}
 	for k, v := range s.Vals {
 		c.Vals[k] = v
 	}
@@ -69,6 +73,7 @@ func (s *RefSketch) Clear() {
 	s.Vals = map[uint64]float64{}
 	s.NonUnit = false
 	s.ValTotal, s.ValGran, s.SumOverflow = 0, 0, false
+	s.PosOver, s.NegOver = false, false
 	s.Tainted = false
 	s.Lossy = false
 }
@@ -115,6 +120,8 @@ func (s *RefSketch) MergeFrom(o *RefSketch) {
 	if o.SumOverflow {
 		s.SumOverflow = true
 	}
+	s.PosOver = s.PosOver || o.PosOver
+	s.NegOver = s.NegOver || o.NegOver
 	if o.Tainted {
 		s.Tainted = true
 	}
